@@ -27,3 +27,60 @@ def singular_query(selectors):
                     continue
         return False
     return True
+
+
+# ---- 2.4.1 - 2.4.3: well-typedness of function expressions (the five standard functions, 2.4.4 - 2.4.8)
+
+VALUE, LOGICAL, NODES = "ValueType", "LogicalType", "NodesType"
+
+SIGNATURES = {
+    "length": ((VALUE,), VALUE),
+    "count": ((NODES,), VALUE),
+    "match": ((VALUE, VALUE), LOGICAL),
+    "search": ((VALUE, VALUE), LOGICAL),
+    "value": ((NODES,), VALUE),
+}
+
+
+def argument_ok(param, kind, singular, result):
+    """2.4.3, "well-typedness of function expressions": an argument is a literal, a filter query
+    (singular or not), a logical expression or a function expression (with declared result type).
+      ValueType  parameter: a literal; a singular query; a function expression of declared type ValueType.
+      LogicalType parameter: a logical expression; a function expression of declared type LogicalType or
+                             NodesType; any filter query (existence test).
+      NodesType  parameter: any filter query; a function expression of declared type NodesType."""
+    if param == VALUE:
+        return kind == "literal" or (kind == "query" and singular) or (kind == "function" and result == VALUE)
+    if param == LOGICAL:
+        return kind == "logical" or kind == "query" or (kind == "function" and result in (LOGICAL, NODES))
+    return kind == "query" or (kind == "function" and result == NODES)
+
+
+def call_ok(name, args):
+    """args: tuples (kind, singular, declared result type or None)."""
+    params, _ = SIGNATURES[name]
+    if len(args) != len(params):
+        return False
+    return all(argument_ok(p, *a) for p, a in zip(params, args))
+
+
+def usable_as_test(kind, result):
+    """2.3.5.1 / 2.4.3: a test expression is a filter query or a function expression of declared type
+    LogicalType or NodesType; literals and ValueType function results must be compared."""
+    if kind == "literal":
+        return False
+    if kind == "function":
+        return result in (LOGICAL, NODES)
+    return True
+
+
+def comparable(kind, singular, result):
+    """2.3.5.1 / 2.4.3: a comparable is a literal, a singular query or a function expression of declared
+    type ValueType."""
+    if kind == "literal":
+        return True
+    if kind == "query":
+        return singular
+    if kind == "function":
+        return result == VALUE
+    return False
